@@ -239,7 +239,7 @@ func (qr *queryRequest) executeCallback(cb func(QueryRequest)) {
 				str = e.Message
 			}
 		case error:
-			str = e.Error()
+			str = errString(e)
 			if !qr.replied {
 				qr.error(ToError(e))
 			}
